@@ -93,6 +93,7 @@ pub struct LinkLayer;
 
 struct NetCfg {
     mtu: u16,
+    /// microseconds
     lat_base: u64,
     lat_rand: u64,
     thr_base: u64,
@@ -121,10 +122,18 @@ impl Check for LinkLayer {
                 1 => 20 + e.choose(200) as u16,
                 _ => 200 + e.choose(1800) as u16,
             };
+            // microseconds: whole milliseconds as well as sub-millisecond and fractional values
+            let lat = |e: &mut Entropy| -> u64 {
+                match e.weighted(&[3, 2, 2]) {
+                    0 => 1000 * (1 + e.choose(50) as u64),
+                    1 => 100 + e.choose(900) as u64,
+                    _ => 1000 * (1 + e.choose(20) as u64) + 1 + e.choose(999) as u64,
+                }
+            };
             let (lat_base, lat_rand) = match e.weighted(&[2, 2, 1]) {
                 0 => (0, 0),
-                1 => (1 + e.choose(50) as u64, 0),
-                _ => (1 + e.choose(50) as u64, 1 + e.choose(30) as u64),
+                1 => (lat(e), 0),
+                _ => (lat(e), 1 + e.choose(30_000) as u64),
             };
             let (thr_base, thr_rand) = match e.weighted(&[3, 2, 1]) {
                 0 => (0, 0),
@@ -190,7 +199,7 @@ impl Check for LinkLayer {
                     b = b.mtu(c.mtu);
                 }
                 if c.lat_base > 0 {
-                    b = b.latency(if c.lat_rand > 0 { Latency::variable(Duration::from_millis(c.lat_base), Duration::from_millis(c.lat_rand)) } else { Latency::constant(Duration::from_millis(c.lat_base)) });
+                    b = b.latency(if c.lat_rand > 0 { Latency::variable(Duration::from_micros(c.lat_base), Duration::from_micros(c.lat_rand)) } else { Latency::constant(Duration::from_micros(c.lat_base)) });
                 }
                 if c.thr_base > 0 {
                     b = b.throughput(if c.thr_rand > 0 { Throughput::variable(Baud::bytes_per_second(c.thr_base), Baud::bytes_per_second(c.thr_rand)) } else { Throughput::constant(Baud::bytes_per_second(c.thr_base)) });
@@ -289,8 +298,8 @@ impl Check for LinkLayer {
             let ser = |len: usize| -> u64 { if c.thr_base == 0 { 0 } else { len as u64 * 1000 / tmax } };
             for d in &got {
                 let dt = d.t.saturating_sub(s.t);
-                let min = Duration::from_millis(c.lat_base + ser(p.len));
-                ensure!(dt >= min, "timing", "too_early", "frame {:#x} ({} bytes) was delivered {:?} after it was sent; latency base {} ms + serialisation {} ms", p.tag, p.len, dt, c.lat_base, ser(p.len));
+                let min = Duration::from_micros(c.lat_base) + Duration::from_millis(ser(p.len));
+                ensure!(dt >= min, "timing", "too_early", "frame {:#x} ({} bytes) was delivered {:?} after it was sent; latency base {} us + serialisation {} ms", p.tag, p.len, dt, c.lat_base, ser(p.len));
             }
         }
         // aggregate throughput bound per network
@@ -307,8 +316,8 @@ impl Check for LinkLayer {
             for k in 0..fs.len() {
                 let total_ms: u64 = fs[..=k].iter().map(|(f, _)| f.bytes.len() as u64 * 1000 / tmax).sum();
                 let first = fs[..=k].iter().map(|(f, _)| f.t).min().unwrap();
-                let avail = fs[k].1.saturating_sub(first).saturating_sub(Duration::from_millis(c.lat_base));
-                ensure!(avail >= Duration::from_millis(total_ms), "timing", "faster_than_throughput", "network {ni}: {} frames totalling {} ms of serialisation at {} B/s were delivered within {:?} (latency base {} ms)", k + 1, total_ms, tmax, avail, c.lat_base);
+                let avail = fs[k].1.saturating_sub(first).saturating_sub(Duration::from_micros(c.lat_base));
+                ensure!(avail >= Duration::from_millis(total_ms), "timing", "faster_than_throughput", "network {ni}: {} frames totalling {} ms of serialisation at {} B/s were delivered within {:?} (latency base {} us)", k + 1, total_ms, tmax, avail, c.lat_base);
             }
         }
         // nothing unexpected was demuxed: every demux corresponds to an accepted send
@@ -328,7 +337,7 @@ impl Check for LinkLayer {
         }
         if ctx.want_desc {
             ctx.desc = Some(json!({
-                "networks": cfgs.iter().map(|c| json!({"mtu": c.mtu, "latency_ms": [c.lat_base, c.lat_rand], "throughput_Bps": [c.thr_base, c.thr_rand]})).collect::<Vec<_>>(),
+                "networks": cfgs.iter().map(|c| json!({"mtu": c.mtu, "latency_us": [c.lat_base, c.lat_rand], "throughput_Bps": [c.thr_base, c.thr_rand]})).collect::<Vec<_>>(),
                 "attachments": attach,
                 "sends": plans.iter().map(|(m, p)| format!("m{m} slot {} t={}ms len {} -> {:?}", p.slot, p.at_ms, p.len, p.dest)).collect::<Vec<_>>(),
                 "frames_on_wire": frames.len(), "demux_calls": demux.len(),
